@@ -1,4 +1,5 @@
 (* Proofs/TreeDiffP.v — one directory level of the tree diff pairs every name exactly once *)
+From Coq Require FinFun.
 From DV Require Import Bytes RustTwins PackIdx PackIdxP TreeDiff.
 Local Open Scope Z_scope.
 
@@ -6,12 +7,6 @@ Local Open Scope Z_scope.
 Inductive sorted_ents : list tent -> Prop :=
 | se_nil : sorted_ents []
 | se_cons e r : Forall (fun x => bytes_cmp (t_name e) (t_name x) = OLt) r -> sorted_ents r -> sorted_ents (e :: r).
-
-Definition find (n : bytes) (l : list tent) : option tent :=
-  List.find (fun e => bytes_beq (t_name e) n) l.
-
-Definition pair_name (p : option tent * option tent) : bytes :=
-  match p with (Some a, _) => t_name a | (None, Some b) => t_name b | (None, None) => [] end.
 
 Lemma bytes_cmp_trans : forall a b c, bytes_cmp a b = OLt -> bytes_cmp b c = OLt -> bytes_cmp a c = OLt.
 Proof.
@@ -56,11 +51,15 @@ Lemma Forall_lt_trans a b l : bytes_cmp a b = OLt -> Forall (fun x => bytes_cmp 
   Forall (fun x => bytes_cmp a (t_name x) = OLt) l.
 Proof. intros H F. eapply Forall_impl; [|exact F]. intros x Hx. eapply bytes_cmp_trans; eauto. Qed.
 
+Definition lb (lo : option bytes) (n : bytes) : Prop := match lo with Some b => bytes_cmp b n = OLt | None => True end.
+Lemma lb_trans lo a b : lb lo a -> bytes_cmp a b = OLt -> lb lo b.
+Proof. destruct lo as [l|]; cbn; [|trivial]. intros H1 H2. eapply bytes_cmp_trans; eauto. Qed.
+
 (* what a correct pairing is *)
-Definition pair_ok (l1 l2 : list tent) (p : option tent * option tent) : Prop :=
+Definition pair_ok (l1 l2 : list tent) (p : pair) : Prop :=
   fst p = find (pair_name p) l1 /\ snd p = find (pair_name p) l2 /\ (fst p <> None \/ snd p <> None).
 
-Inductive sorted_pairs : list (option tent * option tent) -> Prop :=
+Inductive sorted_pairs : list (pair) -> Prop :=
 | sp_nil : sorted_pairs []
 | sp_cons p r : Forall (fun q => bytes_cmp (pair_name p) (pair_name q) = OLt) r -> sorted_pairs r -> sorted_pairs (p :: r).
 
@@ -76,9 +75,9 @@ Qed.
 
 Lemma merge_spec : forall fuel l1 l2 lo,
   sorted_ents l1 -> sorted_ents l2 -> (length l1 + length l2 <= fuel)%nat ->
-  Forall (fun x => bytes_cmp lo (t_name x) = OLt) l1 -> Forall (fun x => bytes_cmp lo (t_name x) = OLt) l2 ->
+  Forall (fun x => lb lo (t_name x)) l1 -> Forall (fun x => lb lo (t_name x)) l2 ->
   Forall (pair_ok l1 l2) (merge_entries fuel l1 l2) /\
-  Forall (fun p => bytes_cmp lo (pair_name p) = OLt) (merge_entries fuel l1 l2) /\
+  Forall (fun p => lb lo (pair_name p)) (merge_entries fuel l1 l2) /\
   sorted_pairs (merge_entries fuel l1 l2) /\
   (forall n, (find n l1 <> None \/ find n l2 <> None) -> In n (map pair_name (merge_entries fuel l1 l2))).
 Proof.
@@ -87,26 +86,26 @@ Proof.
   - destruct l1 as [|e1 r1]; destruct l2 as [|e2 r2]; cbn [merge_entries].
     + repeat split; try constructor. intros n [H|H]; exfalso; apply H; reflexivity.
     + inversion S2 as [|? ? F2 S2']; subst. inversion L2 as [|? ? Le2 L2']; subst.
-      destruct (IH [] r2 (t_name e2) S1 S2' ltac:(cbn [length] in *; lia) ltac:(constructor) F2) as (Ha & Hb & Hc & Hd).
+      destruct (IH [] r2 (Some (t_name e2)) S1 S2' ltac:(cbn [length] in *; lia) ltac:(constructor) F2) as (Ha & Hb & Hc & Hd).
       repeat split.
       * constructor.
         -- unfold pair_ok; cbn [fst snd pair_name]. rewrite find_head. repeat split; try reflexivity; (left; discriminate) || (right; discriminate).
         -- eapply pair_ok_weaken; [|exact Ha].
            eapply Forall_impl; [|exact Hb]. intros p Hp. split; [reflexivity|]. apply find_tail. apply lt_neq. exact Hp.
-      * constructor; [exact Le2|]. eapply Forall_impl; [|exact Hb]. intros p Hp. eapply bytes_cmp_trans; [exact Le2|exact Hp].
+      * constructor; [exact Le2|]. eapply Forall_impl; [|exact Hb]. intros p Hp. eapply lb_trans; [exact Le2|exact Hp].
       * constructor; assumption.
       * intros n [H|H]; [exfalso; apply H; reflexivity|]. cbn [map pair_name].
         destruct (bytes_beq (t_name e2) n) eqn:E.
         -- apply bytes_beq_spec in E. left. exact E.
         -- right. apply Hd. right. unfold find in *. cbn [List.find] in H. rewrite E in H. exact H.
     + inversion S1 as [|? ? F1 S1']; subst. inversion L1 as [|? ? Le1 L1']; subst.
-      destruct (IH r1 [] (t_name e1) S1' S2 ltac:(cbn [length] in *; lia) F1 ltac:(constructor)) as (Ha & Hb & Hc & Hd).
+      destruct (IH r1 [] (Some (t_name e1)) S1' S2 ltac:(cbn [length] in *; lia) F1 ltac:(constructor)) as (Ha & Hb & Hc & Hd).
       repeat split.
       * constructor.
         -- unfold pair_ok; cbn [fst snd pair_name]. rewrite find_head. repeat split; try reflexivity; (left; discriminate) || (right; discriminate).
         -- eapply pair_ok_weaken; [|exact Ha].
            eapply Forall_impl; [|exact Hb]. intros p Hp. split; [|reflexivity]. apply find_tail. apply lt_neq. exact Hp.
-      * constructor; [exact Le1|]. eapply Forall_impl; [|exact Hb]. intros p Hp. eapply bytes_cmp_trans; [exact Le1|exact Hp].
+      * constructor; [exact Le1|]. eapply Forall_impl; [|exact Hb]. intros p Hp. eapply lb_trans; [exact Le1|exact Hp].
       * constructor; assumption.
       * intros n [H|H]; [|exfalso; apply H; reflexivity]. cbn [map pair_name].
         destruct (bytes_beq (t_name e1) n) eqn:E.
@@ -118,13 +117,13 @@ Proof.
       * (* e1 first *)
         assert (F2' : Forall (fun x => bytes_cmp (t_name e1) (t_name x) = OLt) (e2 :: r2)).
         { constructor; [exact C|]. eapply Forall_lt_trans; eauto. }
-        destruct (IH r1 (e2 :: r2) (t_name e1) S1' S2 ltac:(cbn [length] in *; lia) F1 F2') as (Ha & Hb & Hc & Hd).
+        destruct (IH r1 (e2 :: r2) (Some (t_name e1)) S1' S2 ltac:(cbn [length] in *; lia) F1 F2') as (Ha & Hb & Hc & Hd).
         repeat split.
         -- constructor.
            ++ unfold pair_ok; cbn [fst snd pair_name]. rewrite find_head. rewrite (find_none_lt _ _ F2'). repeat split; try reflexivity; (left; discriminate) || (right; discriminate).
            ++ eapply pair_ok_weaken; [|exact Ha].
               eapply Forall_impl; [|exact Hb]. intros p Hp. split; [|reflexivity]. apply find_tail. apply lt_neq. exact Hp.
-        -- constructor; [exact Le1|]. eapply Forall_impl; [|exact Hb]. intros p Hp. eapply bytes_cmp_trans; [exact Le1|exact Hp].
+        -- constructor; [exact Le1|]. eapply Forall_impl; [|exact Hb]. intros p Hp. eapply lb_trans; [exact Le1|exact Hp].
         -- constructor; assumption.
         -- intros n Hn. cbn [map pair_name].
            destruct (bytes_beq (t_name e1) n) eqn:E.
@@ -133,7 +132,7 @@ Proof.
       * (* same name *)
         apply bytes_cmp_eq in C.
         assert (F2' : Forall (fun x => bytes_cmp (t_name e1) (t_name x) = OLt) r2) by (rewrite C; exact F2).
-        destruct (IH r1 r2 (t_name e1) S1' S2' ltac:(cbn [length] in *; lia) F1 F2') as (Ha & Hb & Hc & Hd).
+        destruct (IH r1 r2 (Some (t_name e1)) S1' S2' ltac:(cbn [length] in *; lia) F1 F2') as (Ha & Hb & Hc & Hd).
         repeat split.
         -- constructor.
            ++ unfold pair_ok; cbn [fst snd pair_name]. rewrite find_head. replace (find (t_name e1) (e2 :: r2)) with (Some e2) by (rewrite C; symmetry; apply find_head). repeat split; try reflexivity; (left; discriminate) || (right; discriminate).
@@ -141,7 +140,7 @@ Proof.
               eapply Forall_impl; [|exact Hb]. intros p Hp. split; apply find_tail.
               ** apply lt_neq. exact Hp.
               ** rewrite <- C. apply lt_neq. exact Hp.
-        -- constructor; [exact Le1|]. eapply Forall_impl; [|exact Hb]. intros p Hp. eapply bytes_cmp_trans; [exact Le1|exact Hp].
+        -- constructor; [exact Le1|]. eapply Forall_impl; [|exact Hb]. intros p Hp. eapply lb_trans; [exact Le1|exact Hp].
         -- constructor; assumption.
         -- intros n Hn. cbn [map pair_name].
            destruct (bytes_beq (t_name e1) n) eqn:E.
@@ -151,16 +150,316 @@ Proof.
         apply bytes_cmp_flip' in C.
         assert (F1' : Forall (fun x => bytes_cmp (t_name e2) (t_name x) = OLt) (e1 :: r1)).
         { constructor; [exact C|]. eapply Forall_lt_trans; eauto. }
-        destruct (IH (e1 :: r1) r2 (t_name e2) S1 S2' ltac:(cbn [length] in *; lia) F1' F2) as (Ha & Hb & Hc & Hd).
+        destruct (IH (e1 :: r1) r2 (Some (t_name e2)) S1 S2' ltac:(cbn [length] in *; lia) F1' F2) as (Ha & Hb & Hc & Hd).
         repeat split.
         -- constructor.
            ++ unfold pair_ok; cbn [fst snd pair_name]. rewrite find_head. rewrite (find_none_lt _ _ F1'). repeat split; try reflexivity; (left; discriminate) || (right; discriminate).
            ++ eapply pair_ok_weaken; [|exact Ha].
               eapply Forall_impl; [|exact Hb]. intros p Hp. split; [reflexivity|]. apply find_tail. apply lt_neq. exact Hp.
-        -- constructor; [exact Le2|]. eapply Forall_impl; [|exact Hb]. intros p Hp. eapply bytes_cmp_trans; [exact Le2|exact Hp].
+        -- constructor; [exact Le2|]. eapply Forall_impl; [|exact Hb]. intros p Hp. eapply lb_trans; [exact Le2|exact Hp].
         -- constructor; assumption.
         -- intros n Hn. cbn [map pair_name].
            destruct (bytes_beq (t_name e2) n) eqn:E.
            ++ apply bytes_beq_spec in E. left. exact E.
            ++ right. apply Hd. destruct Hn as [H|H]; [left; exact H|right]. unfold find in *. cbn [List.find] in H. rewrite E in H. exact H.
+Qed.
+
+Lemma merge_ok l1 l2 : sorted_ents l1 -> sorted_ents l2 ->
+  Forall (pair_ok l1 l2) (merge l1 l2) /\ sorted_pairs (merge l1 l2) /\
+  (forall n, (find n l1 <> None \/ find n l2 <> None) -> In n (map pair_name (merge l1 l2))).
+Proof.
+  intros S1 S2. unfold merge.
+  destruct (merge_spec (length l1 + length l2) l1 l2 None S1 S2 (le_n _)) as (A & _ & C & D).
+  - apply Forall_forall; intros; exact I.
+  - apply Forall_forall; intros; exact I.
+  - auto.
+Qed.
+
+(* ---------- the recursive diff ---------- *)
+Definition item := (path * option leaf * option leaf)%type.
+Definition ipath (d : item) : path := fst (fst d).
+Definition pfx (n : bytes) (d : item) : item := (n :: fst (fst d), snd (fst d), snd d).
+
+Definition pruned (pr : pair) : bool := is_tree (fst pr) && is_tree (snd pr) && oeqb (fst pr) (snd pr).
+
+Fixpoint delta (fuel : nat) (st : store) (pr : pair) : list item :=
+  if pruned pr then []
+  else own_delta pr ++
+       match fuel with
+       | O => []
+       | S f => flat_map (fun c => map (pfx (pair_name c)) (delta f st c)) (merge (sub st (fst pr)) (sub st (snd pr)))
+       end.
+
+Lemma flat_map_map_comm {A B} (g : A -> list B) (h : A -> A) (k : B -> B) (l : list A) :
+  (forall x, g (h x) = map k (g x)) -> flat_map g (map h l) = map k (flat_map g l).
+Proof.
+  intros H. induction l as [|x l IH]; [reflexivity|]. cbn [map flat_map]. rewrite map_app, H, IH. reflexivity.
+Qed.
+
+Lemma own_map_id (l : list item) : map (fun d : item => ([] ++ fst (fst d), snd (fst d), snd d)) l = l.
+Proof. rewrite <- (map_id l) at 2. apply map_ext. intros [[q o] n]. reflexivity. Qed.
+
+Lemma tree_delta_eq st : forall f pr, tree_delta f st pr = delta f st pr.
+Proof.
+  induction f as [|f IH]; intros pr; unfold tree_delta; cbn [walk delta]; unfold pruned; cbn [andb];
+    destruct (is_tree (fst pr) && is_tree (snd pr) && oeqb (fst pr) (snd pr)); try reflexivity; cbn [flat_map fst snd].
+  - f_equal. apply own_map_id.
+  - f_equal; [apply own_map_id|].
+    induction (merge (sub st (fst pr)) (sub st (snd pr))) as [|c cs IHc]; [reflexivity|].
+    cbn [flat_map]. rewrite flat_map_app. rewrite IHc. f_equal.
+    rewrite <- IH. unfold tree_delta.
+    apply flat_map_map_comm. intros [q x]. cbn [fst snd]. rewrite map_map. apply map_ext. intros [[q' o] n]. reflexivity.
+Qed.
+
+(* ---------- facts about reading trees ---------- *)
+Lemma look_none st q : look st None q = None.
+Proof. induction q as [|n r IH]; [reflexivity|]. cbn [look sub]. exact IH. Qed.
+
+Lemma find_nil n : find n [] = None. Proof. reflexivity. Qed.
+
+Lemma find_some' n l e : find n l = Some e -> In e l /\ t_name e = n.
+Proof. unfold find. intros H. apply find_some in H. destruct H as [H1 H2]. apply bytes_beq_spec in H2. auto. Qed.
+
+Lemma find_in_sorted l : sorted_ents l -> forall c, In c l -> find (t_name c) l = Some c.
+Proof.
+  induction 1 as [|e r F _ IH]; intros c Hc; [contradiction|]. destruct Hc as [->|Hc]; [apply find_head|].
+  rewrite find_tail; [apply IH; exact Hc|]. rewrite Forall_forall in F. apply lt_neq. apply F. exact Hc.
+Qed.
+
+Lemma tent_eqb_eq a b : tent_eqb a b = true -> a = b.
+Proof.
+  unfold tent_eqb. intros H. apply andb_prop in H. destruct H as [H H3]. apply andb_prop in H. destruct H as [H1 H2].
+  apply bytes_beq_spec in H1. apply bytes_beq_spec in H3. apply Z.eqb_eq in H2. destruct a, b; cbn in *. subst. reflexivity.
+Qed.
+Lemma oeqb_eq e1 e2 : oeqb e1 e2 = true -> e1 = e2.
+Proof. destruct e1, e2; cbn; intros H; try discriminate; [apply tent_eqb_eq in H; subst|]; reflexivity. Qed.
+Lemma tent_eqb_refl a : tent_eqb a a = true.
+Proof. unfold tent_eqb. rewrite !bytes_beq_refl, Z.eqb_refl. reflexivity. Qed.
+
+Definition names_agree (pr : pair) : Prop :=
+  match pr with (Some a, Some b) => t_name a = t_name b | _ => True end.
+
+Lemma own_spec pr q o n : names_agree pr ->
+  (In (q, o, n) (own_delta pr) <-> q = [] /\ o = as_leaf (fst pr) /\ n = as_leaf (snd pr) /\ o <> n).
+Proof.
+  intros NA. unfold own_delta. destruct (oeqb (fst pr) (snd pr)) eqn:E.
+  - apply oeqb_eq in E. split; [contradiction|]. intros (_ & -> & -> & H). rewrite E in H. contradiction.
+  - assert (D : as_leaf (fst pr) <> as_leaf (snd pr) \/ (as_leaf (fst pr) = None /\ as_leaf (snd pr) = None)).
+    { destruct pr as [[a|] [b|]]; cbn [fst snd as_leaf oeqb names_agree] in *.
+      - destruct (is_dir (t_mode a)), (is_dir (t_mode b)); try (left; discriminate); [right; auto|].
+        left. intros H. inversion H as [[H1 H2]]. unfold tent_eqb in E. rewrite NA, H1, H2, !bytes_beq_refl, Z.eqb_refl in E. discriminate.
+      - destruct (is_dir (t_mode a)); [right; auto|left; discriminate].
+      - destruct (is_dir (t_mode b)); [right; auto|left; discriminate].
+      - discriminate. }
+    destruct (as_leaf (fst pr)) as [x|] eqn:E1; destruct (as_leaf (snd pr)) as [y|] eqn:E2.
+    + split; [intros [H|[]]; inversion H; subst; repeat split; destruct D as [D|[D _]]; [exact D|discriminate]
+             |intros (-> & -> & -> & _); left; reflexivity].
+    + split; [intros [H|[]]; inversion H; subst; repeat split; discriminate|intros (-> & -> & -> & _); left; reflexivity].
+    + split; [intros [H|[]]; inversion H; subst; repeat split; discriminate|intros (-> & -> & -> & _); left; reflexivity].
+    + split; [contradiction|]. intros (_ & -> & -> & H). contradiction.
+Qed.
+
+(* ---------- well-formed trees: names strictly increasing, depth within the fuel ---------- *)
+Fixpoint wft (fuel : nat) (st : store) (e : option tent) : Prop :=
+  sorted_ents (sub st e) /\
+  match fuel with
+  | O => sub st e = []
+  | S f => forall c, In c (sub st e) -> wft f st (Some c)
+  end.
+
+Lemma wft_none f st : wft f st None.
+Proof. destruct f; cbn; split; try constructor; try reflexivity. intros c []. Qed.
+
+Lemma sortedb_sorted l : sortedb l = true -> sorted_ents l.
+Proof.
+  induction l as [|a r IH]; intros H; [constructor|].
+  destruct r as [|b r']; [constructor; [constructor|constructor]|].
+  cbn [sortedb] in H. apply andb_prop in H. destruct H as [H1 H2].
+  destruct (bytes_cmp (t_name a) (t_name b)) eqn:C; try discriminate.
+  specialize (IH H2). constructor; [|exact IH].
+  inversion IH as [|? ? F S']; subst. constructor; [exact C|].
+  eapply Forall_impl; [|exact F]. intros x Hx. eapply bytes_cmp_trans; eauto.
+Qed.
+
+Lemma wfb_wft st : forall f e, wfb f st e = true -> wft f st e.
+Proof.
+  induction f as [|f IH]; intros e H; cbn [wfb wft] in *; apply andb_prop in H; destruct H as [H1 H2]; split; try (apply sortedb_sorted; exact H1).
+  - destruct (sub st e); [reflexivity|discriminate].
+  - intros c Hc. apply IH. rewrite forallb_forall in H2. apply H2. exact Hc.
+Qed.
+
+Definition spec_for (st : store) (pr : pair) (D : list item) : Prop :=
+  (forall q o n, In (q, o, n) D -> o = look st (fst pr) q /\ n = look st (snd pr) q /\ o <> n) /\
+  (forall q, look st (fst pr) q <> look st (snd pr) q -> In (q, look st (fst pr) q, look st (snd pr) q) D) /\
+  NoDup (map ipath D).
+
+Lemma NoDup_app_intro {A} (a b : list A) : NoDup a -> NoDup b -> (forall x, In x a -> ~ In x b) -> NoDup (a ++ b).
+Proof.
+  induction a as [|x a IH]; intros Ha Hb Hd; [exact Hb|]. inversion Ha as [|? ? Hx Ha']; subst.
+  cbn. constructor.
+  - rewrite in_app_iff. intros [H|H]; [contradiction|]. eapply Hd; [left; reflexivity|exact H].
+  - apply IH; auto. intros y Hy. apply Hd. right. exact Hy.
+Qed.
+
+Lemma in_kids_path (D : pair -> list item) cs q :
+  In q (map ipath (flat_map (fun c => map (pfx (pair_name c)) (D c)) cs)) ->
+  exists c r, In c cs /\ q = pair_name c :: r /\ In r (map ipath (D c)).
+Proof.
+  induction cs as [|c cs IH]; cbn [flat_map map]; [contradiction|].
+  rewrite map_app, in_app_iff. intros [H|H].
+  - rewrite map_map in H. apply in_map_iff in H. destruct H as [d [<- Hd]]. exists c, (ipath d). split; [left; reflexivity|].
+    split; [reflexivity|]. apply in_map. exact Hd.
+  - destruct (IH H) as (c' & r & Hc & Hq & Hr). exists c', r. split; [right; exact Hc|auto].
+Qed.
+
+Lemma kids_spec st (D : pair -> list item) L1 L2 cs :
+  Forall (pair_ok L1 L2) cs -> sorted_pairs cs ->
+  (forall n, (find n L1 <> None \/ find n L2 <> None) -> In n (map pair_name cs)) ->
+  (forall c, In c cs -> spec_for st c (D c)) ->
+  let K := flat_map (fun c => map (pfx (pair_name c)) (D c)) cs in
+  (forall q o n, In (q, o, n) K -> exists m r, q = m :: r /\ o = look st (find m L1) r /\ n = look st (find m L2) r /\ o <> n) /\
+  (forall m r, look st (find m L1) r <> look st (find m L2) r -> In (m :: r, look st (find m L1) r, look st (find m L2) r) K) /\
+  NoDup (map ipath K).
+Proof.
+  intros OK SP CO SPEC K. rewrite Forall_forall in OK. repeat split.
+  - intros q o n H. unfold K in H. apply in_flat_map in H. destruct H as (c & Hc & H).
+    apply in_map_iff in H. destruct H as ([[r o'] n'] & Heq & Hd). unfold pfx in Heq. cbn [fst snd] in Heq. inversion Heq; subst.
+    destruct (SPEC c Hc) as (S1 & _ & _). destruct (S1 _ _ _ Hd) as (A & B & C).
+    destruct (OK c Hc) as (P1 & P2 & _). exists (pair_name c), r. rewrite <- P1, <- P2. auto.
+  - intros m r H.
+    assert (Hm : find m L1 <> None \/ find m L2 <> None).
+    { destruct (find m L1) eqn:E1; [left; discriminate|]. destruct (find m L2) eqn:E2; [right; discriminate|].
+      exfalso. apply H. reflexivity. }
+    apply CO in Hm. apply in_map_iff in Hm. destruct Hm as (c & Hn & Hc). subst m.
+    destruct (OK c Hc) as (P1 & P2 & _). destruct (SPEC c Hc) as (_ & S2 & _).
+    rewrite <- P1, <- P2 in *. specialize (S2 r H).
+    unfold K. apply in_flat_map. exists c. split; [exact Hc|].
+    apply in_map_iff. exists (r, look st (fst c) r, look st (snd c) r). split; [reflexivity|exact S2].
+  - unfold K. clear K CO OK. induction SP as [|c cs F SP IH]; [constructor|].
+    cbn [flat_map]. rewrite map_app. apply NoDup_app_intro.
+    + destruct (SPEC c (or_introl eq_refl)) as (_ & _ & ND). rewrite map_map.
+      replace (map (fun x => ipath (pfx (pair_name c) x)) (D c)) with (map (cons (pair_name c)) (map ipath (D c))) by (rewrite map_map; reflexivity).
+      apply FinFun.Injective_map_NoDup; [|exact ND]. intros a b Hab. inversion Hab. reflexivity.
+    + apply IH. intros c' Hc'. apply SPEC. right. exact Hc'.
+    + intros q Hq Hq'. rewrite map_map in Hq. apply in_map_iff in Hq. destruct Hq as (d & <- & _).
+      apply in_kids_path in Hq'. destruct Hq' as (c' & r & Hc' & Heq & _). unfold pfx, ipath in Heq. cbn [fst] in Heq.
+      injection Heq as Hn _. rewrite Forall_forall in F. specialize (F c' Hc'). rewrite Hn, bytes_cmp_refl in F. discriminate.
+Qed.
+
+Lemma wft_children st f e1 e2 c :
+  wft (S f) st e1 -> wft (S f) st e2 -> pair_ok (sub st e1) (sub st e2) c ->
+  wft f st (fst c) /\ wft f st (snd c) /\ names_agree c.
+Proof.
+  intros [_ W1] [_ W2] (P1 & P2 & _). repeat split.
+  - destruct (fst c) as [a|] eqn:E; [|apply wft_none]. symmetry in P1. apply find_some' in P1. apply W1. apply P1.
+  - destruct (snd c) as [b|] eqn:E; [|apply wft_none]. symmetry in P2. apply find_some' in P2. apply W2. apply P2.
+  - destruct c as [[a|] [b|]]; cbn [names_agree]; auto. cbn [fst snd pair_name] in *.
+    symmetry in P2. apply find_some' in P2. symmetry. apply P2.
+Qed.
+
+Lemma delta_spec st : forall f pr, wft f st (fst pr) -> wft f st (snd pr) -> names_agree pr -> spec_for st pr (delta f st pr).
+Proof.
+  induction f as [|f IH]; intros pr W1 W2 NA.
+  - cbn [delta]. destruct (pruned pr) eqn:P.
+    + unfold pruned in P. apply andb_prop in P. destruct P as [_ P]. apply oeqb_eq in P.
+      split; [intros q o n []|split; [|constructor]]. intros q H. rewrite P in H. contradiction.
+    + rewrite app_nil_r. destruct W1 as [_ W1], W2 as [_ W2]. split; [|split].
+      * intros q o n H. apply own_spec in H; [|exact NA]. destruct H as (-> & -> & -> & H). auto.
+      * intros [|m r] H.
+        -- apply own_spec; [exact NA|]. cbn [look] in *. auto.
+        -- exfalso. apply H. cbn [look]. rewrite W1, W2. reflexivity.
+      * unfold own_delta. destruct (oeqb (fst pr) (snd pr)); [constructor|].
+        destruct (as_leaf (fst pr)), (as_leaf (snd pr)); cbn; repeat constructor; intros [].
+  - cbn [delta]. destruct (pruned pr) eqn:P.
+    + unfold pruned in P. apply andb_prop in P. destruct P as [_ P]. apply oeqb_eq in P.
+      split; [intros q o n []|split; [|constructor]]. intros q H. rewrite P in H. contradiction.
+    + destruct (merge_ok _ _ (proj1 W1) (proj1 W2)) as (OK & SP & CO).
+      assert (SPEC : forall c, In c (merge (sub st (fst pr)) (sub st (snd pr))) -> spec_for st c (delta f st c)).
+      { intros c Hc. rewrite Forall_forall in OK. destruct (wft_children st f _ _ c W1 W2 (OK c Hc)) as (A & B & C). apply IH; assumption. }
+      destruct (kids_spec st (delta f st) _ _ _ OK SP CO SPEC) as (K1 & K2 & K3).
+      split; [|split].
+      * intros q o n H. apply in_app_iff in H. destruct H as [H|H].
+        -- apply own_spec in H; [|exact NA]. destruct H as (-> & -> & -> & H). auto.
+        -- destruct (K1 _ _ _ H) as (m & r & -> & -> & -> & Hne). auto.
+      * intros [|m r] H; apply in_app_iff.
+        -- left. apply own_spec; [exact NA|]. cbn [look] in *. auto.
+        -- right. apply K2. exact H.
+      * rewrite map_app. apply NoDup_app_intro; [| exact K3 |].
+        -- unfold own_delta. destruct (oeqb (fst pr) (snd pr)); [constructor|].
+           destruct (as_leaf (fst pr)), (as_leaf (snd pr)); cbn; repeat constructor; intros [].
+        -- intros q Hq Hq'. apply in_map_iff in Hq. destruct Hq as ([[q0 o] n] & <- & Hd).
+           apply own_spec in Hd; [|exact NA]. destruct Hd as (-> & _).
+           apply in_kids_path in Hq'. destruct Hq' as (c & r & _ & Heq & _). discriminate.
+Qed.
+
+(* ---------- the statements about tree_changes ---------- *)
+Definition oleaf_eq_dec : forall a b : option leaf, {a = b} + {a <> b}.
+Proof. decide equality. decide equality; [apply (list_eq_dec Z.eq_dec)|apply Z.eq_dec]. Defined.
+
+Lemma path_beq_spec : forall a b, path_beq a b = true <-> a = b.
+Proof.
+  induction a as [|x a IH]; intros [|y b]; cbn [path_beq]; split; intros H; try discriminate; try reflexivity.
+  - apply andb_prop in H. destruct H as [H1 H2]. apply bytes_beq_spec in H1. apply IH in H2. subst. reflexivity.
+  - inversion H; subst. rewrite bytes_beq_refl. cbn. apply IH. reflexivity.
+Qed.
+
+Section Diff.
+  Variable st : store.
+  Variable f : nat.
+  Variable pr : pair.
+  Hypothesis W1 : wfb f st (fst pr) = true.
+  Hypothesis W2 : wfb f st (snd pr) = true.
+  Hypothesis NA : names_agree pr.
+
+  Lemma spec_tree_delta : spec_for st pr (tree_delta f st pr).
+  Proof. rewrite tree_delta_eq. apply delta_spec; [apply wfb_wft; exact W1|apply wfb_wft; exact W2|exact NA]. Qed.
+
+  (* sound and complete: exactly the paths whose file differs, with the old and the new file *)
+  Lemma diff_exact_l q o n :
+    In (q, o, n) (tree_delta f st pr) <-> (o = look st (fst pr) q /\ n = look st (snd pr) q /\ o <> n).
+  Proof.
+    destruct spec_tree_delta as (A & B & _). split; [apply A|]. intros (-> & -> & H). apply B. exact H.
+  Qed.
+
+  Lemma diff_paths_unique_l : NoDup (map ipath (tree_delta f st pr)).
+  Proof. apply spec_tree_delta. Qed.
+
+  (* the first listing with the change list applied is the second listing *)
+  Lemma diff_applies_l q : patched f st pr q = look st (snd pr) q.
+  Proof.
+    unfold patched, find_delta.
+    destruct (List.find (fun x => path_beq (fst (fst x)) q) (tree_delta f st pr)) as [[[q' o] n]|] eqn:E.
+    - apply find_some in E. destruct E as [E1 E2]. cbn [fst snd] in *. apply path_beq_spec in E2. subst q'.
+      apply diff_exact_l in E1. apply E1.
+    - destruct (oleaf_eq_dec (look st (fst pr) q) (look st (snd pr) q)) as [H|H]; [exact H|].
+      exfalso. assert (I : In (q, look st (fst pr) q, look st (snd pr) q) (tree_delta f st pr)) by (apply diff_exact_l; auto).
+      eapply find_none in E; [|exact I]. cbn [fst] in E. assert (path_beq q q = true) by (apply path_beq_spec; reflexivity). congruence.
+  Qed.
+End Diff.
+
+(* ---------- iter_tree_contents lists exactly what lookups find ---------- *)
+Lemma flatten_spec st : forall f e, wft f st (Some e) ->
+  forall q lf, In (q, lf) (flatten f st e) <-> look st (Some e) q = Some lf.
+Proof.
+  induction f as [|f IH]; intros e W q lf.
+  - cbn [flatten]. destruct (is_dir (t_mode e)) eqn:D.
+    + destruct W as [_ W]. split; [contradiction|]. destruct q as [|m r]; cbn [look as_leaf]; [rewrite D; discriminate|].
+      rewrite W. cbn [find List.find]. rewrite look_none. discriminate.
+    + split.
+      * intros [H|[]]. inversion H; subst. cbn [look as_leaf]. rewrite D. reflexivity.
+      * destruct q as [|m r]; cbn [look as_leaf sub]; rewrite D; [intros H; inversion H; left; reflexivity|].
+        cbn [find List.find]. rewrite look_none. discriminate.
+  - cbn [flatten]. destruct (is_dir (t_mode e)) eqn:D.
+    + destruct W as [S W]. cbn [sub] in S, W. rewrite D in S, W. split.
+      * intros H. apply in_flat_map in H. destruct H as (c & Hc & H). apply in_map_iff in H. destruct H as ([r lf'] & Heq & Hr).
+        cbn [fst snd] in Heq. inversion Heq; subst. cbn [look sub]. rewrite D. rewrite (find_in_sorted _ S c Hc).
+        apply IH; [apply W; exact Hc|exact Hr].
+      * destruct q as [|m r]; cbn [look as_leaf sub]; rewrite D; [discriminate|].
+        destruct (find m (st (t_id e))) as [c|] eqn:E; [|rewrite look_none; discriminate].
+        apply find_some' in E. destruct E as [Hc Hn]. intros H. apply in_flat_map. exists c. split; [exact Hc|].
+        apply in_map_iff. exists (r, lf). split; [cbn [fst snd]; rewrite Hn; reflexivity|]. apply IH; [apply W; exact Hc|exact H].
+    + split.
+      * intros [H|[]]. inversion H; subst. cbn [look as_leaf]. rewrite D. reflexivity.
+      * destruct q as [|m r]; cbn [look as_leaf sub]; rewrite D; [intros H; inversion H; left; reflexivity|].
+        cbn [find List.find]. rewrite look_none. discriminate.
 Qed.
